@@ -23,8 +23,57 @@ pub fn mg() -> std::rc::Rc<MoveGenerator> {
     })
 }
 
+thread_local! {
+    /// (halfmove clock, fullmove number) wished for the boards built in the current case
+    static COUNTER_WISH: std::cell::Cell<(u32, u32)> = std::cell::Cell::new((0, 1));
+}
+
+/// Every case carries move counters for the FENs it builds boards from (the properties
+/// quantify over all valid positions, whatever their counters).  The wish is derived from the
+/// last bytes of the generated input: mostly "0 1", otherwise values around the fifty/seventy-five
+/// move marks and arbitrary ones; it is clamped per position to what a real game can show.
+pub fn set_counter_wish_from_bytes(bytes: &[u8]) {
+    let n = bytes.len();
+    let (a, b) = if n >= 2 { (bytes[n - 1], bytes[n - 2]) } else { (0, 0) };
+    let wish = match a % 10 {
+        0..=5 => (0, 1),
+        6 => ([98u32, 99, 100, 101][(b % 4) as usize], 60 + (b as u32 % 7) * 40),
+        7 => ([148u32, 149, 150, 50][(b % 4) as usize], 80 + b as u32 * 3),
+        8 => (b as u32 % 151, 1 + (b as u32 * 37) % 400),
+        _ => (b as u32 % 20, 1 + b as u32 % 30),
+    };
+    COUNTER_WISH.with(|c| c.set(wish));
+}
+
+pub fn set_counter_wish(half: u32, full: u32) {
+    COUNTER_WISH.with(|c| c.set((half, full)));
+}
+
+/// The counters used for `p` in this case: the wish, clamped to what a game can reach (clock at
+/// most the plies played and at most 150; 0 right after a double push).
+pub fn counters_for(p: &Pos) -> (u32, u32) {
+    let (hw, fw) = COUNTER_WISH.with(|c| c.get());
+    let full = fw.max(1);
+    let plies = 2 * (full - 1) + if p.stm == Color::B { 1 } else { 0 };
+    let half = if p.ep.is_some() { 0 } else { hw.min(plies).min(150) };
+    (half, full)
+}
+
+/// The six-field FEN through which `p` reaches the engine in this case.
+pub fn fen(p: &Pos) -> String {
+    let (h, f) = counters_for(p);
+    p.fen(h, f)
+}
+
+/// Reads a saved FEN back (structural replays) and makes its counters the wish of the case.
+pub fn pos_from_saved_fen(fen: &str) -> Option<Pos> {
+    let (p, h, f) = Pos::from_fen(fen).ok()?;
+    set_counter_wish(h, f);
+    Some(p)
+}
+
 pub fn to_board(p: &Pos) -> Board {
-    Board::new(&p.fen(0, 1))
+    Board::new(&fen(p))
 }
 
 pub fn ekind(p: Piece) -> Kind {
